@@ -564,6 +564,16 @@ def run(ctx):
                    "(SRP computed) or part 1 rejected M2 through its own checks")
     viol = []
     scns = gen_scenarios(tier, rnd)
+    if ctx.get("replay"):
+        # --replay <file>: re-run exactly the scenario a replay file names (deterministic secrets), all three ways
+        import json
+        want = json.load(open(ctx["replay"])).get("scenario")
+        scns = [s for s in scns if s.ident() == want] or \
+               [s for s in gen_scenarios("thorough", rng(ctx["seed"], "c03")) if s.ident() == want]
+        if not scns:
+            return dict(coverage=dict(evaluations=0, distinct_nontrivial=0, rule="replay", samples=[]),
+                        violations=[violation("replay:unknown-scenario", f"no scenario named {want}", False)])
+        scns, workers = scns[:1], 1
     recs = run_all(scns, workers)
     for r in recs:
         if "harness_error" in r:
